@@ -1,5 +1,5 @@
 (* LoadProofsTable.v -- composition for the cross-reference TABLE format:
-   load (save_table d) returns the reloaded document, for every savable document outside the
+   load (so_bytes (save_core XTable d)) returns the reloaded document, for every savable_core document outside the
    known-finding class. *)
 From LV Require Import Base.Bytes Base.Sx Model.Obj Model.Writer Model.Parser Model.Save Model.Xref Model.Loader
   Model.Utf Gen.Lex Gen.SaveFmt Proofs.LexProofs Proofs.RealProofs Proofs.ObjectRtProofs Proofs.SaveProofs
@@ -156,7 +156,7 @@ Proof.
     pose proof (N.mod_lt pos u32_mod ltac:(unfold u32_mod; lia)). unfold u32_max, u32_mod in *. lia.
 Qed.
 
-(* ---------- facts that follow from savable ---------- *)
+(* ---------- facts that follow from savable_core ---------- *)
 Lemma dict_set_forall (P : bytes * obj -> Prop) : forall d k v,
   Forall P d -> P (k, v) -> (forall k' v', P (k', v') -> P (k', v)) -> Forall P (dict_set d k v).
 Proof.
@@ -175,7 +175,7 @@ Proof.
 Qed.
 
 Lemma trailer_table_wf d :
-  savable d -> obj_wf (ODict (trailer_table d)).
+  savable_core d -> obj_wf (ODict (trailer_table d)).
 Proof.
   intro S. pose proof (sv_trailer d S) as Hw. inversion Hw as [| | | | | | |tr Hnd Hf|]; subst.
   unfold trailer_table. constructor.
@@ -197,7 +197,7 @@ Proof.
 Qed.
 
 Lemma savable_objs_ok d :
-  savable d -> known_deep d = false -> Forall obj_ok (d_objects d).
+  savable_core d -> known_deep d = false -> Forall obj_ok (d_objects d).
 Proof.
   intros S K. pose proof (sv_objects d S) as Ho. pose proof (sv_max_id d S) as Hm.
   unfold known_deep in K. apply orb_false_iff in K as [K _].
@@ -211,9 +211,9 @@ Proof.
     apply Nat.ltb_ge in Hk. exact Hk.
 Qed.
 
-Lemma save_table_ok d : savable d -> so_status (save XTable d) = SaveOk.
+Lemma save_table_ok d : savable_core d -> so_status (save_core XTable d) = SaveOk.
 Proof.
-  intro S. unfold save.
+  intro S. unfold save_core.
   replace (u32_top <=? d_max_id d) with false
     by (symmetry; apply N.leb_gt; pose proof (sv_max_id d S); unfold u32_top, u32_mod in *; lia).
   rewrite (sv_mark d S). cbn [negb]. destruct (save_body d) as [[b xs] x]. reflexivity.
@@ -270,12 +270,12 @@ Qed.
 
 (* ---------- the composition ---------- *)
 Theorem load_save_table d :
-  savable d -> known_deep d = false -> small_file XTable d ->
-  load (save_table d) = LOk (reloaded_table d) XTTable.
+  savable_core d -> known_deep d = false -> small_file_core XTable d ->
+  load (so_bytes (save_core XTable d)) = LOk (reloaded_table d) XTTable.
 Proof.
   intros S K Hsmall.
   pose proof (save_table_ok d S) as Hok.
-  destruct (save_ok_shape XTable d Hok) as [mid [Hbytes Hmid]].
+  destruct (save_core_shape XTable d Hok) as [mid [Hbytes Hmid]].
   set (v := d_version d). set (m := d_binary_mark d). set (objs := d_objects d).
   set (t := trailer_table d). set (size := d_max_id d + 1).
   set (HM := header_bytes d ++ mark_bytes d).
@@ -288,11 +288,11 @@ Proof.
     rewrite (write_objects_map objs (Save.blen HM) [] 0 Hinc (Forall_nil _)). reflexivity. }
   set (n := Save.blen (body_of d)).
   set (sx := startxref_bytes n).
-  unfold save_table. rewrite Hbytes. fold n. fold sx. subst mid. rewrite Ex. fold t. fold size.
+   rewrite Hbytes. fold n. fold sx. subst mid. rewrite Ex. fold t. fold size.
   set (x := entries_of (Save.blen HM) objs).
   set (file := body_of d ++ (write_xref x size ++ trailer_bytes t) ++ sx).
   assert (Hsm : Loader.blen file < u32_mod).
-  { unfold small_file, save_table in Hsmall. rewrite Hbytes in Hsmall. rewrite Ex in Hsmall. exact Hsmall. }
+  { unfold small_file_core in Hsmall. rewrite Hbytes in Hsmall. rewrite Ex in Hsmall. exact Hsmall. }
   (* three views of the file *)
   assert (E1 : file = bs "%PDF-" ++ v ++ x0a :: x25 :: m ++ x0a :: (objs_bytes objs ++ (write_xref x size ++ trailer_bytes t) ++ sx)).
   { unfold file. rewrite Ebody. unfold HM, header_bytes, mark_bytes. fold v. fold m.
